@@ -16,8 +16,16 @@ KINDS = ["too-few-params", "too-many-params", "wrong-literal-kind", "unknown-key
          "unterminated-instance", "unterminated-string"]
 LEXICAL = ("unterminated-instance", "unterminated-string")
 
-WRONG_LITERAL = {"int": ["str", "x"], "real": ["str", "x"], "number": ["str", "x"], "string": ["int", 7], "binary": ["real", "3.5"],
-                 "bool": ["int", 7], "logical": ["int", 7], "enum": ["int", 5], "ent": ["str", "x"], "agg": ["int", 7]}
+# several literals of a wrong kind per slot kind; which one is used is part of the seeded position
+WRONG_LITERAL = {"int": [["str", "x"], ["real", "1.5"], ["enum", "T"], ["bin", "1F"], ["list", [["int", 1]]]],
+                 "real": [["str", "x"], ["int", 5], ["enum", "T"], ["bin", "1F"]],
+                 "number": [["str", "x"], ["enum", "T"], ["bin", "1F"]],
+                 "string": [["int", 7], ["real", "2.5"], ["enum", "T"], ["bin", "1F"]],
+                 "binary": [["real", "3.5"], ["str", "1F"], ["int", 3], ["enum", "T"]],
+                 "bool": [["int", 7], ["str", "T"], ["real", "1."]], "logical": [["int", 7], ["str", "U"]],
+                 "enum": [["int", 5], ["str", "x"], ["real", "1."]],
+                 "ent": [["str", "x"], ["int", 3], ["enum", "T"], ["real", "1."]],
+                 "agg": [["int", 7], ["str", "x"], ["enum", "T"]]}
 
 
 class C03(pw.P21Check):
@@ -272,7 +280,7 @@ def corrupt(sch, model, kind, pos):
         if kind == "too-few-params":
             ci[n]["parts"][pi]["vals"].pop()
         else:
-            ci[n]["parts"][pi]["vals"].append(["int", 1])
+            ci[n]["parts"][pi]["vals"].append([["int", 1], ["null"], ["str", "x"], ["real", "1."], ["list", []]][pos["other"] % 5])
         return cm, info_for(n)
     if kind == "wrong-literal-kind":
         c = candidates(lambda t, a, v, d: not d and v[0] not in ("null", "derived") and t["k"] in WRONG_LITERAL and t["k"] != "select")
@@ -282,12 +290,17 @@ def corrupt(sch, model, kind, pos):
         n, pi, si = p
         sl = slots_of(insts[n], pi)
         t = sch.resolve(sl[si][1]["type"])
-        ci[n]["parts"][pi]["vals"][si] = list(WRONG_LITERAL[t["k"]])
+        alts = WRONG_LITERAL[t["k"]]
+        ci[n]["parts"][pi]["vals"][si] = copy.deepcopy(alts[pos["other"] % len(alts)])
         return cm, info_for(n, pi, si, cat=cat_of(sl[si][1]))
     if kind == "unknown-keyword":
         n = pos["inst"] % len(insts)
         pi = pos["part"] % len(insts[n]["parts"])
-        ci[n]["parts"][pi]["ent"] = "NO_SUCH_ENTITY"
+        kw = insts[n]["parts"][pi]["ent"]
+        names = [e.upper() for e in sch.order]
+        cands = ["NO_SUCH_ENTITY", kw + "X", kw[:-1], "X" + kw, kw + "_"]
+        cands = [c for c in cands if c and c not in names and c[0].isalpha()]
+        ci[n]["parts"][pi]["ent"] = cands[pos["other"] % len(cands)]
         return cm, info_for(n)
     if kind == "abstract-keyword":
         abstract = [e for e in sch.order if sch.ents[e].get("abstract")]
@@ -306,7 +319,18 @@ def corrupt(sch, model, kind, pos):
         if not p:
             return None, {}
         n, pi, si = p
-        ci[n]["parts"][pi]["vals"][si] = ["enum", "NOT_AN_ITEM"]
+        t = sch.resolve(slots_of(insts[n], pi)[si][1]["type"])
+        declared = [x.upper() for x in t["items"]]
+        others = [x.upper() for td in sch.sd["types"] if td["def"]["k"] == "enum" for x in td["def"]["items"] if x.upper() not in declared]
+        cands = ["NOT_AN_ITEM"]
+        for d in declared:
+            cands += [d + "X", d + "_", "X" + d]
+            for cut in (1, 2, len(d) // 2):
+                if 0 < cut < len(d):
+                    cands += [d[:-cut], d[cut:]]          # truncated forms of a declared item
+        cands += others[:3]                                # an item of another enumeration of the schema
+        cands = [c for c in cands if c and c not in declared and c[0].isalpha() and all(ch.isalnum() or ch == "_" for ch in c)]
+        ci[n]["parts"][pi]["vals"][si] = ["enum", cands[pos["other"] % len(cands)]]
         return cm, info_for(n, pi, si, cat="enum")
     if kind == "star-where-not-derived":
         c = candidates(lambda t, a, v, d: not d)
